@@ -316,6 +316,27 @@ func init() {
 			}
 			return nil
 		},
+		"sort.Slice": func(fr *frame, args []value) value {
+			// stable insertion sort driven by the interpreted less(); the
+			// comparison results must be concrete
+			sl, ok := args[0].(iface).v.([]value)
+			if !ok {
+				panic(engineError("sort.Slice on non-slice"))
+			}
+			less := func(a, b int) bool {
+				r := call(fr.i, fr, 0, args[1], []value{a, b})
+				if isSym(r) {
+					panic(engineError("sort.Slice with symbolic comparison"))
+				}
+				return r.(bool)
+			}
+			for a := 1; a < len(sl); a++ {
+				for b := a; b > 0 && less(b, b-1); b-- {
+					sl[b], sl[b-1] = sl[b-1], sl[b]
+				}
+			}
+			return nil
+		},
 		"(*sync.Once).Do": func(fr *frame, args []value) value {
 			fr.i.requireUnguarded("Once.Do")
 			p := args[0].(*value)
